@@ -1176,7 +1176,22 @@ def _decide_none_test(test: ast.expr, client: 'SymClient', s: SymState) -> Optio
         return positive
     if _never_none(t):
         return not positive
+    # an attribute of that very value was read on this path (``x.name in ...`` held or failed): it is not None
+    if t and not t.startswith(('+', '-')) and any((t + '.') in c_[1:] for c_ in s.conds if c_[:1] in '+-'
+                                                  and _attr_read_of(c_[1:], t)):
+        return not positive
     return None
+
+
+def _attr_read_of(cond: str, term: str) -> bool:
+    """does the condition text read an attribute of exactly ``term`` (not of a longer term that merely ends the same way)?"""
+    i = cond.find(term + '.')
+    while i >= 0:
+        before = cond[i - 1] if i > 0 else ' '
+        if not (before.isalnum() or before in '_.)]'):
+            return True
+        i = cond.find(term + '.', i + 1)
+    return False
 
 
 def _yields_in(e: ast.AST) -> List[ast.Yield]:
